@@ -140,6 +140,30 @@ def _status_synonym(e: ast.AST) -> ast.AST:
 TEST_REWRITERS: list = []
 
 
+def _canon_compound(e: ast.AST) -> ast.AST:
+    """A compound test with every operand in its canonical spelling (`q.qsize() > 0` as `q.qsize()`, `bool(x)` as `x`): what a compound test is remembered under."""
+    if isinstance(e, ast.BoolOp):
+        return ast.copy_location(ast.BoolOp(op=e.op, values=[_canon_compound(_unbool(v)) for v in e.values]), e)
+    if isinstance(e, ast.UnaryOp) and isinstance(e.op, ast.Not):
+        return ast.copy_location(ast.UnaryOp(op=e.op, operand=_canon_compound(_unbool(e.operand))), e)
+    return e
+
+
+def _ifexp_as_boolop(e: ast.AST) -> ast.AST:
+    """In a test, a conditional expression with a constant arm has the truth value of a boolean combination: `X if C else 0` is `C and X`; `0 if C else X` is `not C and X`;
+    `X if C else 1` is `not C or X`; `1 if C else X` is `C or X`."""
+    if not isinstance(e, ast.IfExp):
+        return e
+    neg = ast.UnaryOp(op=ast.Not(), operand=e.test)
+    if isinstance(e.orelse, ast.Constant):
+        new = ast.BoolOp(op=ast.And(), values=[e.test, e.body]) if not e.orelse.value else ast.BoolOp(op=ast.Or(), values=[neg, e.body])
+    elif isinstance(e.body, ast.Constant):
+        new = ast.BoolOp(op=ast.And(), values=[neg, e.orelse]) if not e.body.value else ast.BoolOp(op=ast.Or(), values=[e.test, e.orelse])
+    else:
+        return e
+    return ast.copy_location(ast.fix_missing_locations(new), e)
+
+
 def _is_count(e: ast.AST) -> bool:
     """A non-negative integer by construction: `q.qsize()` or `len(x)`."""
     return isinstance(e, ast.Call) and not e.keywords and (
@@ -150,6 +174,7 @@ def _uncount(e: ast.AST) -> ast.AST:
     """A count compared with zero has the truth value of the count (or of its negation): `n == 0` is `not n`; `n != 0`, `n > 0`, `n >= 1`, `0 < n` are `n`."""
     for rw in TEST_REWRITERS:
         e = rw(e)
+    e = _ifexp_as_boolop(e)
     e = _status_synonym(e)
     if not (isinstance(e, ast.Compare) and len(e.ops) == 1):
         return e
@@ -280,7 +305,7 @@ class Facts:
         if c is not None:
             return truth_of(c)
         if isinstance(e, (ast.BoolOp, ast.Compare)):
-            whole = self.atom_of(e)  # a compound test tracked as one atom (keeps "A and B is false" without a disjunction domain)
+            whole = self.atom_of(_canon_compound(e))  # a compound test tracked as one atom (keeps "A and B is false" without a disjunction domain)
             if whole is not None and whole in env:
                 return truth_of(env[whole])
         if isinstance(e, ast.UnaryOp) and isinstance(e.op, ast.Not):
@@ -338,7 +363,7 @@ class Facts:
         if cur is not None and cur != truth:
             return None
         if isinstance(e, (ast.BoolOp, ast.Compare)):
-            whole = self.atom_of(e)
+            whole = self.atom_of(_canon_compound(e))
             if whole is not None:
                 env[whole] = 'T' if truth else 'F'
         if isinstance(e, ast.UnaryOp) and isinstance(e.op, ast.Not):
